@@ -112,7 +112,8 @@ Definition code_entry (e : exn) : value :=
   | _ => VInt (rcode_as_int (effective_code e))
   end.
 
-Definition level_entry (e : exn) : value := VInt (Z.of_N (x_level e)).
+(* the usize level goes through an `as MoltInt` cast: it is stored wrapped to signed 64 bits *)
+Definition level_entry (e : exn) : value := VInt (to_i64 (Z.of_N (x_level e))).
 
 (* ---------- re-raising what catch stored ---------- *)
 
